@@ -53,6 +53,8 @@ func snippetOf(kind string) (snippet.Snippet, error) {
 		return nil, nil
 	case "snip":
 		return snippet.Block("S"), nil
+	case "self":
+		return snippet.ID("self.io/me.T"), nil
 	}
 	return nil, fmt.Errorf("unknown snippet kind %q", kind)
 }
@@ -73,16 +75,32 @@ func sprintfArg(kind string) (any, error) {
 	return nil, fmt.Errorf("unknown sprintf arg kind %q", kind)
 }
 
-func renderOut(s func() snippet.Snippet) map[string]any {
+func renderIn(self string, v snippet.Snippet) (core.Panic, []int) {
 	buf := bytes.NewBuffer(nil)
 	tracker := namer.NewDefaultImportTracker()
-	sw := gengo.NewSnippetWriter(buf, namer.NameSystems{"raw": namer.NewRawNamer("self.io/me", tracker)})
-	p := core.Try(func() { sw.Render(s()) })
+	sw := gengo.NewSnippetWriter(buf, namer.NameSystems{"raw": namer.NewRawNamer(self, tracker)})
+	p := core.Try(func() { sw.Render(v) })
 	out := []int{}
 	if !p.Panicked {
 		out = core.CPs(buf.String())
 	}
-	return map[string]any{"panicked": p.Panicked, "panic_msg": p.Msg, "panic_site": p.Site, "out": out}
+	return p, out
+}
+
+// renderOut renders the snippet in the file of package self.io/me. A snippet is a value: the SAME value is then rendered into
+// the file of another package and must come out there like a freshly built one (reusable = false: the value wraps a
+// one-shot sequence and can be rendered only once).
+func renderOut(s func() snippet.Snippet, reusable bool) map[string]any {
+	v := s()
+	p, out := renderIn("self.io/me", v)
+	obs := map[string]any{"panicked": p.Panicked, "panic_msg": p.Msg, "panic_site": p.Site, "out": out, "reuse_judged": false,
+		"out_again": []int{}, "out_fresh": []int{}, "panicked_again": false, "panicked_fresh": false}
+	if reusable {
+		p2, out2 := renderIn("other.io/you", v)
+		p3, out3 := renderIn("other.io/you", s())
+		obs["reuse_judged"], obs["out_again"], obs["out_fresh"], obs["panicked_again"], obs["panicked_fresh"] = true, out2, out3, p2.Panicked, p3.Panicked
+	}
+	return obs
 }
 
 func (templateFam) Exec(c core.CaseIn, rng *rand.Rand, emit func(cas, conc, obs any)) error {
@@ -101,6 +119,7 @@ func (templateFam) Exec(c core.CaseIn, rng *rand.Rand, emit func(cas, conc, obs 
 		return ks, nil
 	}
 	var mk func() snippet.Snippet
+	oneShot := false
 	switch tc.API {
 	case "T":
 		args := snippet.Args{}
@@ -116,7 +135,25 @@ func (templateFam) Exec(c core.CaseIn, rng *rand.Rand, emit func(cas, conc, obs 
 			}
 			args[core.FromCPs(name)] = s
 		}
-		if c.ID%2 == 1 {
+		if c.ID%3 == 2 && len(args) > 0 {
+			// one Args map shared by several T calls, each with a binding of its own next to it (a loop over fields that
+			// passes the common arguments plus the field's): the first template is rendered after the others were built
+			names := core.SortedKeys(args)
+			own := names[0]
+			common := snippet.Args{}
+			for _, n := range names[1:] {
+				common[n] = args[n]
+			}
+			mk = func() snippet.Snippet {
+				t := snippet.T(format, common, snippet.Arg(own, args[own]))
+				_ = snippet.T("@"+own, common, snippet.Arg(own, snippet.Block("OTHER")))
+				_ = snippet.T("x", common, snippet.Arg("late", snippet.Block("LATE")))
+				if len(common) != len(names)-1 {
+					return snippet.Block("THE CALLER'S MAP WAS CHANGED")
+				}
+				return t
+			}
+		} else if c.ID%2 == 1 {
 			// the same bindings handed over one by one (Arg), with a nil TArg in between, instead of as one Args map
 			var list []snippet.TArg
 			for _, name := range core.SortedKeys(args) {
@@ -180,7 +217,22 @@ func (templateFam) Exec(c core.CaseIn, rng *rand.Rand, emit func(cas, conc, obs 
 				return err
 			}
 		}
-		if tc.API == "Snippets" {
+		if tc.API == "Snippets" && c.ID%2 == 1 {
+			// a sequence that can be consumed once only (parts produced on demand): whatever is taken from it is gone
+			oneShot = true
+			mk = func() snippet.Snippet {
+				i := 0
+				return snippet.Snippets(func(yield func(snippet.Snippet) bool) {
+					for i < len(parts) {
+						p := parts[i]
+						i++
+						if !yield(p) {
+							return
+						}
+					}
+				})
+			}
+		} else if tc.API == "Snippets" {
 			mk = func() snippet.Snippet { return snippet.Snippets(slices.Values(parts)) }
 		} else {
 			// Fragments(ctx, s) applied to each part and concatenated by a Func snippet
@@ -201,7 +253,7 @@ func (templateFam) Exec(c core.CaseIn, rng *rand.Rand, emit func(cas, conc, obs 
 	default:
 		return fmt.Errorf("unknown api %q", tc.API)
 	}
-	emit(nil, map[string]any{"text": format}, renderOut(mk))
+	emit(nil, map[string]any{"text": format}, renderOut(mk, !oneShot))
 	if tc.API == "Snippets" {
 		// the same parts through Fragments
 		var m map[string]any
